@@ -711,10 +711,32 @@ func c01EmitHandle(c *core.Ctx, r *core.Report, arms []tagArm) {
 		}
 		return ""
 	}
+	// a decoder whose tag switch was moved into a helper it calls directly (same package): the helper's arms
+	// are the decoder's arms
+	viaHelper := func(short string) string {
+		for _, f := range c.RepoFunctions() {
+			if f.Parent() != nil || !(strings.HasSuffix(shortFn(f), "."+short) || shortFn(f) == short) {
+				continue
+			}
+			for _, ci := range core.CallsIn(f) {
+				h := ci.Common().StaticCallee()
+				if h == nil || h.Blocks == nil || core.FnPkgPath(h) != core.FnPkgPath(f) {
+					continue
+				}
+				if _, ok := handled[shortFn(h)]; ok {
+					return shortFn(h)
+				}
+			}
+		}
+		return ""
+	}
 	nDec := 0
 	for _, d := range decoders {
 		short := d.fn[strings.Index(d.fn, ".")+1:]
 		fn := resolve(short)
+		if fn == "" {
+			fn = viaHelper(short)
+		}
 		if fn == "" {
 			if short == "getColByteSlice" {
 				continue
